@@ -90,6 +90,10 @@ def ops(group):
             o['rx-ann-p1-wd-p2-%s' % a] = ('rx', upd_v4(['p1'], a, ['p2']), [('in', 'ipv4', 'wd', 'p2', None), ('in', 'ipv4', 'ann', 'p1', a)])
         o['rx-ann-p1p2-a1'] = ('rx', upd_v4(['p1', 'p2'], 'a1'), [('in', 'ipv4', 'ann', 'p1', 'a1'), ('in', 'ipv4', 'ann', 'p2', 'a1')])
         o['rx-wd-p1p2'] = ('rx', upd_v4(wd=['p1', 'p2']), [('in', 'ipv4', 'wd', 'p1', None), ('in', 'ipv4', 'wd', 'p2', None)])
+        # the same prefix twice in one NLRI field (legal; the second is a no-op), and twice in the withdrawn routes
+        o['rx-ann-p1p1-a1'] = ('rx', upd_v4(['p1', 'p1'], 'a1'), [('in', 'ipv4', 'ann', 'p1', 'a1'), ('in', 'ipv4', 'ann', 'p1', 'a1')])
+        o['rx-wd-p2p2'] = ('rx', upd_v4(wd=['p2', 'p2']), [('in', 'ipv4', 'wd', 'p2', None), ('in', 'ipv4', 'wd', 'p2', None)])
+        o['send-ann-p1p1-a1'] = ('rest', {'attr': json_attr('a1'), 'nlri': [P['p1'][0], P['p1'][0]]}, [('out', 'ipv4', 'ann', 'p1', 'a1')])
         # many UPDATEs in one TCP read (a table transfer): 550 x (announce p1, withdraw p1), then announce p2 - one event
         burst = (upd_v4(['p1'], 'a1') + upd_v4(wd=['p1'])) * 550 + upd_v4(['p2'], 'a2')
         o['rx-burst-1101'] = ('rx', burst, [('in', 'ipv4', 'ann', 'p1', 'a1'), ('in', 'ipv4', 'wd', 'p1', None)] * 550 + [('in', 'ipv4', 'ann', 'p2', 'a2')])
